@@ -415,3 +415,105 @@ func rootReuseDump(pj *simdjson.ParsedJson) (s string, err error) {
 	}
 	return b.String(), nil
 }
+
+// iterByPath reaches the value with the given abstract path through the element-handing
+// APIs instead of AdvanceInto: Root, then per level Object.Parse / NextElementBytes /
+// Object.ForEach's callback, or Array.Iter+AdvanceIter / Array.ForEach's callback.  Those
+// iterators see a tape view that ENDS with the element (AdvanceInto's sees the whole tape).
+func iterByPath(pj *simdjson.ParsedJson, path []int, route int) (res simdjson.Iter, ok bool) {
+	defer func() {
+		if r := recover(); r != nil {
+			ok = false
+		}
+	}()
+	if len(path) == 0 {
+		return res, false
+	}
+	top := pj.Iter()
+	for r := 0; r <= path[0]; r++ {
+		if top.Advance() != simdjson.TypeRoot {
+			return res, false
+		}
+	}
+	_, p, err := top.Root(nil)
+	if err != nil {
+		return res, false
+	}
+	cur := *p
+	for lvl, idx := range path[1:] {
+		rt := route >> uint(lvl%8)
+		found := false
+		switch cur.Type() {
+		case simdjson.TypeObject:
+			obj, err := cur.Object(nil)
+			if err != nil {
+				return res, false
+			}
+			switch rt % 3 {
+			case 0:
+				els, err := obj.Parse(nil)
+				if err != nil || idx >= len(els.Elements) {
+					return res, false
+				}
+				cur, found = els.Elements[idx].Iter, true
+			case 1:
+				var e simdjson.Iter
+				for j := 0; j <= idx; j++ {
+					_, t, err := obj.NextElementBytes(&e)
+					if err != nil || t == simdjson.TypeNone {
+						return res, false
+					}
+				}
+				cur, found = e, true
+			default:
+				n := 0
+				obj.ForEach(func(_ []byte, it simdjson.Iter) {
+					if n == idx {
+						cur, found = it, true
+					}
+					n++
+				}, nil)
+			}
+		case simdjson.TypeArray:
+			arr, err := cur.Array(nil)
+			if err != nil {
+				return res, false
+			}
+			if rt%2 == 0 {
+				ai := arr.Iter()
+				var d simdjson.Iter
+				for j := 0; j <= idx; j++ {
+					t, err := ai.AdvanceIter(&d)
+					if err != nil || t == simdjson.TypeNone {
+						return res, false
+					}
+				}
+				cur, found = d, true
+			} else {
+				n := 0
+				arr.ForEach(func(it simdjson.Iter) {
+					if n == idx {
+						cur, found = it, true
+					}
+					n++
+				})
+			}
+		}
+		if !found {
+			return res, false
+		}
+	}
+	return cur, true
+}
+
+// editIter: the iterator an edit is applied through — AdvanceInto's in one case out of four,
+// otherwise one handed out by the element APIs (iterByPath) when that reaches the same value.
+func editIter(pj *simdjson.ParsedJson, k int, path []int, r *Rng) simdjson.Iter {
+	it := iterAt(pj, k)
+	if rt := r.Intn(1 << 12); rt%4 != 0 {
+		if it2, ok := iterByPath(pj, path, rt>>2); ok && it2.Type() == it.Type() {
+			return it2
+		}
+	}
+	return it
+}
